@@ -30,7 +30,7 @@ def plan(tier, seed):
 
 
 INT_KEYS = [0, 1, -1, 2, -2, 7, 265, -265, 2 ** 31 - 1, -2 ** 31, 2 ** 32, 2 ** 32 + 5, 2 ** 40 + 3, -2 ** 40, 10 ** 15, 123456789]
-STR_KEYS = ['', 'a', 'b', 'ab', 'ba', 'é', '中', '😀', ' ', 'a ', 'A', '0', '00', 'key-1', 'key-2', 'x' * 100]
+STR_KEYS = ['', 'a', 'b', 'ab', 'ba', 'é', '中', '😀', ' ', 'a ', 'A', '0', '00', 'key-1', 'key-2', 'x' * 100, 'p' * 300 + 'A', 'p' * 300 + 'B', 'p' * 256, 'p' * 257]
 
 
 def shard_cms(sh, part):
